@@ -511,6 +511,10 @@ def gen_file_op(rng, d):
     statlen = n if r < 0.6 else rng.choice([0, max(0, n - 1), n + 1, 2 * n + 3, n // 2])   # the file changed after fstat
     if rng.random() < 0.08:
         return f"init_from_file b{d} 0 0 - - hint 0"                      # fopen fails
+    if rng.random() < 0.01:
+        # a file well beyond MAX_BUFFER_GROWTH_READING_FILES read without a usable hint: the growth step must stay capped
+        big = rbytes(rng, rng.choice([8193, 9000, 12289]), "alpha")
+        return f"init_from_file b{d} 1 0 {hexs(big)} - nohint {rng.choice([0, 1, 33])}"
     if rng.random() < 0.55:
         sched = "-"
     else:
@@ -559,7 +563,7 @@ def gen_subview_case(rng):
     gives a different, property-observable result (a match completed behind the view, a longer number, a separator that
     is not there, …).  The same inputs are also run on an exact-size copy (ASan red zone right behind the view)."""
     ops = []
-    kind = rng.choice(["find", "find", "find", "starts", "eq", "split", "trim", "read", "compare", "parse", "misc"])
+    kind = rng.choice(["find", "find", "find", "starts", "eq", "eq", "casecmp", "casecmp", "split", "trim", "read", "compare", "parse", "misc", "zero", "sep"])
     pre = rbytes(rng, rng.choice([0, 1, 3]), "csv")
     view = post = b""
     follow = []
@@ -590,6 +594,39 @@ def gen_subview_case(rng):
         follow = [f"cur_bytes c2 {hexs(longer)}", f"cur_eq{ic} c1 c2", f"array_eq{ic} c1 c2", f"cur_eq_c_str{ic} c1 {hexs(longer)}",
                   f"array_eq_c_str{ic} c1 {hexs(view)}", f"string_eq_cursor{ic} {hexs(longer)} c1", f"string_eq_cursor{ic} {hexs(view)} c1",
                   f"cur_bytes c2 {hexs(view)}", f"cur_eq{ic} c1 c2", "init b1 8", f"write b1 {hexs(longer[:8])} {len(longer[:8])}", f"cur_eq_buf{ic} c1 b1"]
+    elif kind == "casecmp":
+        # comparands that differ from the view only in letter case / are identical: separates every _ignore_case entry
+        # point from its case-sensitive sibling, for cursors, buffers, C strings and aws_strings
+        view = bytes(rng.choice(b"abXYz19,") for _ in range(rng.choice([1, 2, 4])))
+        if not any(65 <= x <= 90 or 97 <= x <= 122 for x in view):
+            view += b"q"
+        post = rbytes(rng, 1, "alpha")
+        sw = view.swapcase()
+        follow = ["init b1 8", f"write b1 {hexs(view)} {len(view)}", "init b2 8", f"write b2 {hexs(sw)} {len(sw)}",
+                  f"cur_bytes c2 {hexs(sw)}"]
+        for ic in ("", "_ignore_case"):
+            follow += [f"cur_eq{ic} c1 c2", f"array_eq{ic} c1 c2", f"cur_eq_c_str{ic} c1 {hexs(sw)}", f"cur_eq_c_str{ic} c1 {hexs(view)}",
+                       f"array_eq_c_str{ic} c1 {hexs(sw)}", f"cur_eq_buf{ic} c1 b2", f"cur_eq_buf{ic} c1 b1", f"buf_eq{ic} b1 b2", f"buf_eq{ic} b2 b1",
+                       f"buf_eq_c_str{ic} b1 {hexs(sw)}", f"buf_eq_c_str{ic} b1 {hexs(view)}", f"string_eq_cursor{ic} {hexs(sw)} c1",
+                       f"string_eq_buf{ic} {hexs(sw)} b1", f"string_eq_buf{ic} {hexs(view)} b1", f"starts_with{ic} c1 c2"]
+        follow += ["compare_lookup c1 c2", "compare_lexical c1 c2", "hash_ignore_case c1", "hash_ignore_case c2"]
+    elif kind == "zero":
+        n = rng.choice([0, 1, 7, 8, 9, 15, 16, 17, 23])
+        view = bytes(n)
+        if n and rng.random() < 0.6:
+            k = rng.choice([0, n - 1, n // 2, max(0, n - 2), (n // 8) * 8 - 1 if n >= 8 else 0])
+            view = view[:k] + b"\x01" + view[k + 1:]
+        pre, post = rng.choice([b"", b"\x01", b"\x00"]), rng.choice([b"\x01", b"\x00\x01"])
+        follow = ["is_zeroed c1", "string_from_cursor c1", "init b1 24", f"write b1 {hexs(view)} {len(view)}", "string_from_buf b1",
+                  "clean_up b1", "init b1 24", f"write b1 {hexs(view)} {len(view)}", f"reserve b1 {rng.choice([25, 31, 32])}", "clean_up_secure b1"]
+    elif kind == "sep":
+        view = bytes(rng.choice(b"ab/\\/\\.") for _ in range(rng.choice([0, 1, 3, 6])))
+        post = rng.choice([b"/", b"\\", b"\\/"])
+        cap = len(view) + len(post)
+        # the bytes behind len (inside the capacity) are separators too: they must stay as they are
+        follow = [f"init b1 {cap}", f"write b1 {hexs(view + post)} {cap}", "reset b1 0", f"write b1 {hexs(view)} {len(view)}",
+                  "normalize_dir_sep b1", f"buf_advance b1 {len(post)}", "string_from_buf b1", "cur_from_buf c2 b1", "string_from_cursor c2",
+                  f"buf_from_array b2 {hexs(view + post)}", "normalize_dir_sep b2", "init b3 0", "normalize_dir_sep b3"]
     elif kind == "split":
         view = rbytes(rng, rng.choice([0, 1, 3, 6]), "csv")
         post = rng.choice([b",", b",x", b"x,", b",,"])
@@ -663,6 +700,11 @@ def gen_forged_case(rng):
                 ops.append(f"{k} c0 {n}")
             else:
                 ops.append(f"{k} c0")
+        if lnv > HALF and rng.random() < 0.5:
+            # the checked sum of the cursor lengths must overflow (or the destination stays empty), whatever the order
+            ops.append(f"cur_bytes c1 {hexs(rbytes(rng, rng.choice([1, 2, 3])))}")
+            ops.append(f"cur_forge c2 16 {rng.choice(['MAX', 'MAX-1', 'HALF+1'])}")
+            ops.append(rng.choice(["init_cache b1 c0 c1", "init_cache b1 c1 c0", "init_cache b1 c0 c2", "init_cache b1 c1 c0 c2"]))
         if lnv > HALF:
             ops.append("init b0 4")
             ops.append(rng.choice(["write_to_capacity b0 c0", "append b0 c0", "append_dynamic b0 c0"]) if lnv >= MAX - 1 else "append b0 c0")
@@ -1038,6 +1080,26 @@ def oracle(case, lines):
                         errs.append(f"{op}: first occurrence is at {k} of the view, result cursor {co}")
                 if res != exp:
                     errs.append(f"{op}: needle {nd.hex()} in view {hay.hex()}: expected {exp}, got {res}")
+        # (M) normalize_dir_sep rewrites separators in [0,len) only; string_from_* copies exactly the viewed bytes; is_zeroed
+        if name == "normalize_dir_sep" and bb and ab and isinstance(bb["data"], bytes) and isinstance(ab["data"], bytes):
+            if ab["data"] != bb["data"].replace(b"\\", b"/") or ab["len"] != bb["len"] or ab["cap"] != bb["cap"] or ab["rid"] != bb["rid"]:
+                errs.append(f"{op}: {bb} -> {ab}")
+        if name in ("string_from_cursor", "string_from_buf") and res.startswith("OK "):
+            if name == "string_from_cursor":
+                cb = st.c.get(int(t[1][1:]))
+                src = st.cur_bytes(cb) if cb else None
+            else:
+                b0 = st.b.get(int(t[1][1:]))
+                src = b0["data"] if b0 and isinstance(b0["data"], bytes) else None
+            if src is not None:
+                f = res.split()
+                if f[1] != f"len={len(src)}" or f[2] != "nul=1" or unhex(f[3]) != src:
+                    errs.append(f"{op}: the new string is `{res}`, the viewed bytes are {src.hex()}")
+        if name == "is_zeroed" and res.startswith("pred "):
+            cb = st.c.get(int(t[1][1:]))
+            src = st.cur_bytes(cb) if cb else None
+            if src is not None and (res == "pred 1") != (not any(src)):
+                errs.append(f"{op}: {res} for bytes {src.hex()}")
         # commit what the implementation printed
         if name in ("cur_bytes", "cur_from_string") and after_c:
             s = int(t[1][1:])
